@@ -102,6 +102,7 @@ func marshalJSON(r *rand.Rand, v any) []byte {
 }
 
 type tcase struct {
+	kind   string
 	f      string
 	want   M
 	data   []byte
@@ -257,8 +258,16 @@ func textMode(n int, outPath string) {
 			// generator keeps out rows starting with '#', fields with leading blanks and rows that are one empty field
 			rows := make([][]string, 1+r.Intn(4))
 			want := make([]any, len(rows))
+			// RFC 4180: every record has the same number of fields.  Every 5th document is ragged on purpose: that is
+			// outside fq's csv domain (encoding/csv reader, FieldsPerRecord = 0) and must be REPORTED (kind "reject")
+			ragged := i%10 == 4
+			width := 1 + r.Intn(4)
 			for k := range rows {
-				rows[k] = make([]string, 1+r.Intn(4))
+				w := width
+				if ragged && k == len(rows)-1 {
+					w = width + 1
+				}
+				rows[k] = make([]string, w)
 				wr := make([]any, len(rows[k]))
 				for q := range rows[k] {
 					f := []string{"a", "", "b c", "with,comma", "with \"quote\"", "line\nbreak", "é😀", "1", "x#y", "tail "}[r.Intn(10)]
@@ -269,6 +278,9 @@ func textMode(n int, outPath string) {
 					wr[q] = f
 				}
 				want[k] = wr
+			}
+			if ragged && len(rows) < 2 {
+				ragged = false
 			}
 			var cb bytes.Buffer
 			w := csv.NewWriter(&cb)
@@ -284,7 +296,11 @@ func textMode(n int, outPath string) {
 					}
 				}
 			}
-			cs = append(cs, &tcase{f: "csv", want: projectSrc(want), data: cb.Bytes(), note: "no truncation/trailing arm: any prefix or suffix of csv is csv"})
+			cc := &tcase{f: "csv", want: projectSrc(want), data: cb.Bytes(), note: "no truncation/trailing arm: any prefix or suffix of csv is csv"}
+			if ragged {
+				cc.kind = "reject"
+			}
+			cs = append(cs, cc)
 
 			// xml
 			x := genX(r, 2)
@@ -326,7 +342,10 @@ func textMode(n int, outPath string) {
 	out := kit.NewOut(outPath)
 	id := 0
 	for _, c := range cs {
-		ev := M{"id": id, "f": c.f, "part": "text", "kind": "ok", "val": c.want, "n": len(c.data), "src": string(c.data),
+		if c.kind == "" {
+			c.kind = "ok"
+		}
+		ev := M{"id": id, "f": c.f, "part": "text", "kind": c.kind, "val": c.want, "n": len(c.data), "src": string(c.data),
 			"tree": b2i(c.full.tree), "err": b2i(c.full.err), "errmsg": c.full.errmsg + c.full.noTree, "got": gotOf(c.full)}
 		tr := [][3]int{}
 		for k, j := range c.truncs {
